@@ -89,7 +89,64 @@ pub trait NamingContext {
     fn compute_function_name(&self, name: &str, _rename_all: &Option<RenameRule>) -> String {
         // Always use TypeScript conventions (camelCase for functions)
         // Command-level rename_all doesn't affect the function name
-        self.apply_naming_convention(name, RenameRule::CamelCase)
+        let function_name = self.apply_naming_convention(name, RenameRule::CamelCase);
+
+        // `fn delete()` or `fn new()` are fine in Rust but cannot be declared in an ES module
+        const RESERVED_WORDS: &[&str] = &[
+            "arguments",
+            "await",
+            "break",
+            "case",
+            "catch",
+            "class",
+            "const",
+            "continue",
+            "debugger",
+            "default",
+            "delete",
+            "do",
+            "else",
+            "enum",
+            "eval",
+            "export",
+            "extends",
+            "false",
+            "finally",
+            "for",
+            "function",
+            "if",
+            "implements",
+            "import",
+            "in",
+            "instanceof",
+            "interface",
+            "let",
+            "new",
+            "null",
+            "package",
+            "private",
+            "protected",
+            "public",
+            "return",
+            "static",
+            "super",
+            "switch",
+            "this",
+            "throw",
+            "true",
+            "try",
+            "typeof",
+            "var",
+            "void",
+            "while",
+            "with",
+            "yield",
+        ];
+        if RESERVED_WORDS.contains(&function_name.as_str()) {
+            format!("{}_", function_name)
+        } else {
+            function_name
+        }
     }
 
     /// Compute the TypeScript type name (PascalCase)
